@@ -39,7 +39,12 @@ impl OutputFormat for Ansi {
         gen.generate(buf, buf);
         gen.screen_end(buf);
         gen.add_sixels(buf);
-        result.extend(gen.get_data());
+        let data = gen.get_data();
+        if !options.modern_terminal_output && data.starts_with(&[0xEF, 0xBB, 0xBF]) {
+            // a CP437 picture that starts with the three characters of a UTF-8 byte order mark would be loaded as UTF-8
+            result.extend(b"\x1b[0m");
+        }
+        result.extend(data);
 
         if options.save_sauce {
             buf.write_sauce_info(crate::SauceFileType::Ansi, &mut result)?;
